@@ -117,6 +117,19 @@ def judge(family, case, rec):
                 rec.count("assign:scalar-returning")
     cs = case["cseed"]
     noises = [_recording((cs, 1, i), log, ("orig", i), 1.0 + 0.1 * i) for i in range(p)]
+    tables = {}
+    if cs % 5 == 0 and n > 0:
+        # exogenous noise replayed from a table: the callable hands out (a view of) the same stored array every time
+        for i in range(p):
+            if i % 2 == 0:
+                tab = np.random.default_rng((cs, 9, i)).normal(0.5 * i, 1.0, max(n, 1))
+                tables[i] = (tab, tab.copy())
+
+                def replay(m, tab=tab, i=i):
+                    log.setdefault(("orig", i), []).append(tab[:m].copy())
+                    return tab[:m]
+                noises[i] = replay
+        rec.count("noise:replayed-tables")
     do = {i: _recording((cs, 2, i), log, ("do", i), 0.5) for i in case["do"]}
     shift = {i: _recording((cs, 3, i), log, ("shift", i), 2.0) for i in case["shift"]}
     noise = {i: _recording((cs, 4, i), log, ("noiseiv", i), 3.0) for i in case["noise"]}
@@ -135,6 +148,20 @@ def judge(family, case, rec):
     except Exception as e:
         rec.exception_violation("C02:exception-" + type(e).__name__, family, case, "ANM construction / sampling raised %s" % type(e).__name__, e)
         return
+    if tables:
+        # sample a second time (same interventions): the replayed noise must still be the stored one
+        try:
+            log.clear()
+            Xs = model.sample(np.int64(n) if case["cseed"] % 4 == 0 else n, do_interventions=do, shift_interventions=shift,
+                              noise_interventions=noise, random_state=case["rs"])
+        except Exception as e:
+            rec.exception_violation("C02:exception-" + type(e).__name__, family, case, "second ANM.sample call raised", e)
+            return
+        for i, (tab, orig) in tables.items():
+            if not np.array_equal(tab, orig):
+                rec.violation("C02:user-noise-table-modified", family, case,
+                              "the array handed out by the noise distribution of variable %d was modified in place by ANM.sample" % i)
+                return
     Xs = np.asarray(Xs)
     if Xs.shape != (n, p):
         rec.violation("C02:shape", family, case, "sample has shape %r, expected (%d, %d)" % (Xs.shape, n, p))
